@@ -20,7 +20,7 @@ use crate::{
 /// This type also implements [`Serialize`] and [`Deserialize`], so if you don't
 /// like the cooklang shopping list format you can swap it with any [`serde`]
 /// format.
-#[derive(Debug, Clone, PartialEq, Eq, Serialize, Deserialize, Default)]
+#[derive(Debug, Clone, Serialize, Deserialize, Default)]
 pub struct AisleConf<'a> {
     /// List of categories
     #[serde(borrow)]
@@ -59,6 +59,15 @@ pub struct IngredientInfo<'a> {
     /// Category the ingredient is in
     pub category: &'a str,
 }
+
+// `len` is only a cache, it does not take part in comparisons
+impl PartialEq for AisleConf<'_> {
+    fn eq(&self, other: &Self) -> bool {
+        self.categories == other.categories
+    }
+}
+
+impl Eq for AisleConf<'_> {}
 
 impl AisleConf<'_> {
     /// Returns a reversed configuration, where each key is an ingredient
